@@ -594,13 +594,14 @@ class Header:
         :class:`~sigpyproc.io.fileio.FileWriter`
             A file writer object to write data to.
         """
-        if nbits is None:
-            nbits = self.nbits
         if updates is None:
             updates = {}
-        if nbits != self.nbits:
-            updates["nbits"] = nbits
-        new_hdr = self.new_header(updates)
+        if nbits is None:
+            # a depth requested through the header updates is the output depth
+            nbits = updates.get("nbits", self.nbits)
+        # the header always declares the depth the writer packs at (and the
+        # caller's dictionary is left untouched)
+        new_hdr = self.new_header({**updates, "nbits": nbits})
         out_file = FileWriter(
             filename,
             mode="w+",
